@@ -112,11 +112,76 @@ def byte_lit(s):
     raise TranslateError('unrecognised byte literal: %r' % s)
 
 
+CONSTS_NEEDED = ['ARRAY_PREFIX', 'OBJECT_PREFIX', 'SCALAR_PREFIX', 'ARRAY_CONTAINER_TAG', 'OBJECT_CONTAINER_TAG',
+                 'SCALAR_CONTAINER_TAG', 'CONTAINER_HEADER_TYPE_MASK', 'CONTAINER_HEADER_LEN_MASK', 'NULL_TAG',
+                 'STRING_TAG', 'NUMBER_TAG', 'FALSE_TAG', 'TRUE_TAG', 'CONTAINER_TAG', 'NUMBER_ZERO', 'NUMBER_NAN',
+                 'NUMBER_INF', 'NUMBER_NEG_INF', 'NUMBER_INT', 'NUMBER_UINT', 'NUMBER_FLOAT', 'JENTRY_TYPE_MASK',
+                 'JENTRY_OFF_LEN_MASK', 'UNICODE_LEN', 'BS', 'QU', 'SD', 'BB', 'FF', 'NN', 'RR', 'TT', 'NULL_LEVEL',
+                 'ARRAY_LEVEL', 'OBJECT_LEVEL', 'STRING_LEVEL', 'NUMBER_LEVEL', 'TRUE_LEVEL', 'FALSE_LEVEL',
+                 'INVALID_LEVEL']
+
+
+def const_value(text, env):
+    """the value of a constant initialiser: a literal, or constant arithmetic over literals and earlier constants
+    (+ - * / % << >> | & ^, parentheses, `as <int type>` casts are dropped)"""
+    text = re.sub(r'\bas\s+(?:u8|u16|u32|u64|usize|i32|i64|isize|char)\b', '', text).strip()
+    try:
+        return parse_lit(text)
+    except TranslateError:
+        pass
+    toks = re.findall(r"b'\\?.'|'\\x[0-9A-Fa-f]{2}'|'.'|0x[0-9A-Fa-f_]+|[0-9][0-9_]*|[A-Z][A-Z0-9_]*|<<|>>|[-+*/%|&^()]", text)
+    if ''.join(toks) != re.sub(r'\s+', '', text):
+        raise TranslateError('unrecognised literal: %r' % text)
+    pos = [0]
+    prec = [('|',), ('^',), ('&',), ('<<', '>>'), ('+', '-'), ('*', '/', '%')]
+
+    def atom():
+        if pos[0] >= len(toks):
+            raise TranslateError('unrecognised literal: %r' % text)
+        t = toks[pos[0]]
+        pos[0] += 1
+        if t == '(':
+            v = level(0)
+            if pos[0] >= len(toks) or toks[pos[0]] != ')':
+                raise TranslateError('unrecognised literal: %r' % text)
+            pos[0] += 1
+            return v
+        if re.fullmatch(r'[A-Z][A-Z0-9_]*', t):
+            if t not in env:
+                raise TranslateError('unrecognised literal: %r (unknown constant %s)' % (text, t))
+            return env[t]
+        return parse_lit(t)
+
+    def level(k):
+        if k == len(prec):
+            return atom()
+        v = level(k + 1)
+        while pos[0] < len(toks) and toks[pos[0]] in prec[k]:
+            op = toks[pos[0]]
+            pos[0] += 1
+            w = level(k + 1)
+            if op in ('/', '%') and w == 0:
+                raise TranslateError('unrecognised literal: %r' % text)
+            v = {'|': lambda: v | w, '^': lambda: v ^ w, '&': lambda: v & w, '<<': lambda: v << w, '>>': lambda: v >> w,
+                 '+': lambda: v + w, '-': lambda: v - w, '*': lambda: v * w, '/': lambda: v // w, '%': lambda: v % w}[op]()
+        return v
+
+    v = level(0)
+    if pos[0] != len(toks) or v < 0:
+        raise TranslateError('unrecognised literal: %r' % text)
+    return v
+
+
 def consts(repo, strict=True):
     src = strip_comments(open(os.path.join(repo, 'src/constants.rs')).read())
     out = {}
     for m in re.finditer(r'(?:pub(?:\(crate\))?\s+)?const\s+([A-Z0-9_]+)\s*:\s*(u8|u32|usize|char)\s*=\s*([^;]+);', src):
-        out[m.group(1)] = parse_lit(m.group(3))
+        try:
+            out[m.group(1)] = const_value(m.group(3), out)
+        except TranslateError:
+            # a constant the model does not use may be written in any way (`need` below still insists on the ones it uses)
+            if m.group(1) in CONSTS_NEEDED:
+                raise
     need = ['ARRAY_PREFIX', 'OBJECT_PREFIX', 'SCALAR_PREFIX', 'ARRAY_CONTAINER_TAG', 'OBJECT_CONTAINER_TAG',
             'SCALAR_CONTAINER_TAG', 'CONTAINER_HEADER_TYPE_MASK', 'CONTAINER_HEADER_LEN_MASK', 'NULL_TAG',
             'STRING_TAG', 'NUMBER_TAG', 'FALSE_TAG', 'TRUE_TAG', 'CONTAINER_TAG', 'NUMBER_ZERO', 'NUMBER_NAN',
